@@ -136,7 +136,7 @@ func genCase(t *rapid.T) tcase {
 
 var (
 	recRT  = ev.New("c04/roundtrip", "rapid: reference 1970..2500 (era-rollover dense), delta = t-ref in [-2^31 s, 2^31 s) at ns granularity (window-edge and era-boundary dense), independent sub-second parts; oracle: 0 <= t - back <= 1 ns in integer arithmetic. Non-trivial: t and ref in different NTP eras, or delta within 2 s of a window edge; distinct by (ref, delta)")
-	recOrd = ev.New("c04/order", "rapid: two times in the window of one reference; oracle: t_a <= t_b implies back_a <= back_b, Time64FromTime independent of location. Non-trivial as c04/roundtrip for either time")
+	recOrd = ev.New("c04/order", "rapid: two times in the window of one reference; oracle: t_a <= t_b implies back_a <= back_b; for t_a <= t_b less than 2^31 s apart the 64-bit timestamps compare the same way under Time64.Before/After (also across an era boundary); Time64FromTime independent of location. Non-trivial as c04/roundtrip for either time")
 	recNs  = ev.New("c04/exhaustive-nanoseconds", "enumeration of nanosecond values 0..10^9-1 at seconds on both sides of the 2036 rollover (thorough: all 10^9, sharded; quick: every 101st starting at VERIF_SEED mod 101): ns-1 <= back.ns <= ns, back monotone; all counted non-trivial (era-boundary second)")
 	recFr  = ev.New("c04/exhaustive-fractions", "enumeration of 32-bit fractions (thorough: all 2^32, sharded; quick: every 4099th): Time64FromTime(TimeFromTime64(f)).Fraction <= f, within 5 units, nanoseconds monotone in f")
 )
@@ -190,11 +190,24 @@ func TestPropOrder(t *testing.T) {
 			t.Fatalf("order not preserved: a=%+v -> %v, b=%+v -> %v", a, ba, b, bb)
 		}
 		_, ta := a.times()
+		_, tb := b.times()
+		// the 64-bit timestamps themselves, compared with the project's own Before/After (what the server's
+		// timestamp store orders by): for two times less than 2^31 s apart the order of the instants
+		var ols []string
+		if d := tb.Sub(ta); tb.Unix()-ta.Unix() < half-1 && d >= 0 {
+			xa, xb := ntp.Time64FromTime(ta), ntp.Time64FromTime(tb)
+			if xb.Before(xa) || xa.After(xb) || xa != xb && (!xa.Before(xb) || !xb.After(xa)) || xa == xb && (xa.Before(xb) || xa.After(xb)) {
+				t.Fatalf("order of the timestamps differs from the order of the times: %v -> %+v, %v -> %+v", ta, xa, tb, xb)
+			}
+			if xa.Seconds > xb.Seconds {
+				ols = append(ols, "timestamps-across-era-boundary")
+			}
+		}
 		loc := rapid.SampledFrom(locs).Draw(t, "loc")
 		if ntp.Time64FromTime(ta) != ntp.Time64FromTime(ta.In(loc)) {
 			t.Fatalf("Time64FromTime depends on location: %v", ta)
 		}
-		recOrd.Eval(nontrivial(a) || nontrivial(b), ev.Hash(rs, rn, a.DSec, a.DNsec, b.DSec, b.DNsec), func() any { return []tcase{a, b} })
+		recOrd.Eval(nontrivial(a) || nontrivial(b), ev.Hash(rs, rn, a.DSec, a.DNsec, b.DSec, b.DNsec), func() any { return []tcase{a, b} }, ols...)
 	})
 }
 
